@@ -189,6 +189,111 @@ pub fn lost_positions(rng: &mut Rng, starts: &[Pos]) -> Vec<Pos> {
     v
 }
 
+/// Perpetual-check shapes: a position A (the materially lost side Y to move) with a checking move
+/// y1 to which the winning side X has exactly ONE legal reply x1, such that y1^-1 and x1^-1 lead
+/// back to A. Returns (C, [y1^-1, x1^-1, y1, x1]) where C = A after y1 x1 (Y to move): the history
+/// C + two rounds of the cycle minus the last move ends with X to move and a forced reply, after
+/// which Y can step into a position that has occurred twice. Used for `go` after `go`: what the
+/// first answer is does not depend on the engine.
+pub fn forced_reply_cycle(rng: &mut Rng) -> Option<(Pos, [Mv; 4])> {
+    let mut a = Pos::empty();
+    // X = White here; mirrored at random at the end
+    let edge: Vec<u8> = (0..64u8).filter(|s| file_of(*s) == 0 || file_of(*s) == 7 || rank_of(*s) == 0 || rank_of(*s) == 7).collect();
+    let xk = *rng.pick(&edge);
+    a.sq[xk as usize] = Some((Color::White, Kind::King));
+    // shelter: own men next to the king
+    let mut neigh: Vec<u8> = Vec::new();
+    for df in -1..=1 {
+        for dr in -1..=1 {
+            if (df, dr) != (0, 0) {
+                if let Some(s) = sq_at(file_of(xk) + df, rank_of(xk) + dr) {
+                    neigh.push(s);
+                }
+            }
+        }
+    }
+    rng.shuffle(&mut neigh);
+    for s in neigh.iter().take(1 + rng.below(3) as usize) {
+        let k = *rng.pick(&[Kind::Pawn, Kind::Pawn, Kind::Knight, Kind::Bishop]);
+        if k == Kind::Pawn && (rank_of(*s) == 0 || rank_of(*s) == 7) {
+            continue;
+        }
+        a.sq[*s as usize] = Some((Color::White, k));
+    }
+    let mut put = |a: &mut Pos, rng: &mut Rng, pc: (Color, Kind)| {
+        for _ in 0..20 {
+            let s = rng.below(64) as u8;
+            if a.sq[s as usize].is_none() && !(pc.1 == Kind::Pawn && (rank_of(s) == 0 || rank_of(s) == 7)) {
+                a.sq[s as usize] = Some(pc);
+                return;
+            }
+        }
+    };
+    // X's winning material
+    for _ in 0..(1 + rng.below(3)) {
+        let k = *rng.pick(&[Kind::Queen, Kind::Rook, Kind::Knight, Kind::Knight, Kind::Bishop, Kind::Pawn, Kind::Pawn]);
+        put(&mut a, rng, (Color::White, k));
+    }
+    put(&mut a, rng, (Color::White, Kind::Queen));
+    // Y: king and one checking piece, perhaps a pawn
+    put(&mut a, rng, (Color::Black, Kind::King));
+    let yk = *rng.pick(&[Kind::Rook, Kind::Rook, Kind::Queen, Kind::Bishop]);
+    put(&mut a, rng, (Color::Black, yk));
+    if rng.chance(1, 3) {
+        put(&mut a, rng, (Color::Black, Kind::Pawn));
+    }
+    a.stm = Color::Black;
+    let a = if rng.chance(1, 2) { mirror(&a) } else { a };
+    if !is_legal_position(&a) || in_check(&a, a.stm) {
+        return None;
+    }
+    let y = a.stm;
+    // materially lost: X is at least a rook ahead
+    let val = |k: Kind| match k { Kind::Queen => 9, Kind::Rook => 5, Kind::Bishop | Kind::Knight => 3, Kind::Pawn => 1, Kind::King => 0 };
+    let mut bal = 0i32;
+    for s in 0..64 {
+        if let Some((c, k)) = a.sq[s] {
+            bal += if c == y { -val(k) } else { val(k) };
+        }
+    }
+    if bal < 5 {
+        return None;
+    }
+    for y1 in legal_moves(&a) {
+        let (_, k) = a.sq[y1.from as usize]?;
+        if k == Kind::Pawn || k == Kind::King || is_capture(&a, y1) {
+            continue;
+        }
+        let b = apply(&a, y1);
+        if !in_check(&b, b.stm) {
+            continue;
+        }
+        let lb = legal_moves(&b);
+        if lb.len() != 1 {
+            continue;
+        }
+        let x1 = lb[0];
+        let (_, kx) = b.sq[x1.from as usize]?;
+        if kx == Kind::Pawn || is_capture(&b, x1) || is_castle(&b, x1) {
+            continue;
+        }
+        let c = apply(&b, x1);
+        let y1inv = Mv { from: y1.to, to: y1.from, promo: None };
+        if !legal_moves(&c).contains(&y1inv) {
+            continue;
+        }
+        let d = apply(&c, y1inv);
+        let x1inv = Mv { from: x1.to, to: x1.from, promo: None };
+        if !legal_moves(&d).contains(&x1inv) {
+            continue;
+        }
+        if apply(&d, x1inv) == a && has_legal_move(&c) {
+            return Some((c, [y1inv, x1inv, y1, x1]));
+        }
+    }
+    None
+}
+
 pub fn run(tier: Tier, seed: u64) -> i32 {
     let mut run = Run::new("C10", tier, seed, "exploration");
     run.rule = "part a: evaluation = one game history (<= 400 plies, 1-3 repetition sites with 1..99 cycles each, irreversible moves in between, startpos and fen forms; one history per job is a very long game of 1000-2400 plies whose shuffle repeats 253..600 times) loaded through the real position handler function; the repetition record must equal the oracle's occurrence count of every position (identity: placement, side, rights, ep file) with no other non-zero entry; sessions of several position commands on the hooked binary observe the same after the real handler's clear(). part b: evaluation = one search (virtual clock, depth limits 1..5, and timed go on the real binary) from a root where the side to move is materially lost and has a move into a position that already occurred n >= 2 times (n = 2, 3, 4, 5 and, for very long games, 255, 256, 257, 258, 512); refuter: the last info score of a completed depth is below zero. Non-trivial (a) = a history whose maximum count is >= 2, (b) = every such root; distinct by position command (+ depth limit)".into();
